@@ -39,7 +39,7 @@ def stmt_refs(st):
         if k == "backward":
             r += collect_refs([st.get("seed")])
         return r
-    if k == "alias":
+    if k in ("alias", "constof"):
         return [st["src"]]
     return []
 
@@ -70,6 +70,8 @@ def analyze(prog):
                                "leaf": False, "fn": st["fn"], "float": True}
         elif k == "alias":
             info[st["out"]] = dict(info[st["src"]])
+        elif k == "constof":
+            info[st["out"]] = {"tensor": st["how"] != "data", "nonconst": False, "parents": [], "leaf": True, "float": True}
     return info
 
 
